@@ -50,7 +50,13 @@ def _c19():
     return c19
 
 
-def shape_values(shape, n, seedvals):
+def absent_of(case):
+    """The absent value that the format specification of the case declares (entry block 12): the customary -999.25 in two cases
+    of four, otherwise another number that no shape produces as a reading."""
+    return (-999.25, -9999.0, -999.25, -32768.0)[sum(case['seedvals']) % 4]
+
+
+def shape_values(shape, n, seedvals, NULL=NULL):
     out = []
     for i in range(n):
         r = seedvals[i % len(seedvals)]
@@ -114,9 +120,9 @@ def build_case(case):
         cols.append([float(x) for x in xs])
     for c in case['curves']:
         dsbs.append(dsb(c['name'], b'    '))
-        cols.append(shape_values(c['shape'], n, case['seedvals']))
+        cols.append(shape_values(c['shape'], n, case['seedvals'], absent_of(case)))
     blocks = [{'type': 1, 'size': 1, 'rc': 66, 'value': 0}, {'type': 4, 'size': 1, 'rc': 66, 'value': 1 if case['up'] else 255},
-              {'type': 12, 'size': 4, 'rc': 68, 'value': NULL}]
+              {'type': 12, 'size': 4, 'rc': 68, 'value': absent_of(case)}]
     if case['indirect']:
         blocks += [{'type': 8, 'size': 4, 'rc': 68, 'value': float(case['spacing'])}, {'type': 9, 'size': 4, 'rc': 65, 'value': case['units']},
                    {'type': 13, 'size': 1, 'rc': 66, 'value': 1}, {'type': 14, 'size': 4, 'rc': 65, 'value': case['units']},
@@ -132,7 +138,8 @@ def build_case(case):
     outputs = {}
     first = 0 if case['indirect'] else 1
     for c, col in zip(case['curves'], cols[first:]):
-        outputs[c['name']] = {'x_present': [float(x) for x, v in zip(xs, col) if v != NULL], 'x_absent': [float(x) for x, v in zip(xs, col) if v == NULL]}
+        outputs[c['name']] = {'x_present': [float(x) for x, v in zip(xs, col) if v != absent_of(case)],
+                              'x_absent': [float(x) for x, v in zip(xs, col) if v == absent_of(case)]}
     absent_info = {'plot_up': bool(case['up']), 'x_first': float(xs[0]), 'x_last': float(xs[-1]), 'outputs': outputs}
     return data, absent_info
 
@@ -144,6 +151,7 @@ def check_lis_plot(case, cc):
     for sh in shapes:
         cc.cls('genlis:shape-' + sh)
     cc.cls('genlis:implied-x', case['indirect'])
+    cc.cls('genlis:absent-value-declared-other-than--999.25-and-held', absent_of(case) != NULL and any(c['shape'] in ('gaps', 'all-absent') for c in case['curves']))
     cc.cls('genlis:up-log', case['up'])
     plottable = any(c['shape'] != 'all-absent' for c in case['curves'])
     cc.sample({'format': case['format'], 'curves': case['curves'], 'frames': case['frames'], 'implied_x': case['indirect'], 'up': case['up'],
@@ -453,9 +461,9 @@ def build_film_pres_case(case):
         cols.append([float(x) for x in xs])
     for c in case['channels']:
         dsbs.append(dsb(c['name'], c['units']))
-        cols.append(shape_values(c['shape'], n, case['seedvals']))
+        cols.append(shape_values(c['shape'], n, case['seedvals'], absent_of(case)))
     blocks = [{'type': 1, 'size': 1, 'rc': 66, 'value': 0}, {'type': 4, 'size': 1, 'rc': 66, 'value': 1 if case['up'] else 255},
-              {'type': 12, 'size': 4, 'rc': 68, 'value': NULL}]
+              {'type': 12, 'size': 4, 'rc': 68, 'value': absent_of(case)}]
     if case['indirect']:
         blocks += [{'type': 8, 'size': 4, 'rc': 68, 'value': float(case['spacing'])}, {'type': 9, 'size': 4, 'rc': 65, 'value': case['units']},
                    {'type': 13, 'size': 1, 'rc': 66, 'value': 1}, {'type': 14, 'size': 4, 'rc': 65, 'value': case['units']},
@@ -473,9 +481,10 @@ def build_film_pres_case(case):
     for c, col in zip(case['channels'], cols[first:]):
         held = [as68(v) for v in col]
         values[c['name']] = held
-        outputs[c['name']] = {'x_present': [float(x) for x, v in zip(xs, held) if v != NULL], 'x_absent': [float(x) for x, v in zip(xs, held) if v == NULL]}
+        outputs[c['name']] = {'x_present': [float(x) for x, v in zip(xs, held) if v != absent_of(case)],
+                              'x_absent': [float(x) for x, v in zip(xs, held) if v == absent_of(case)]}
     absent_info = {'plot_up': bool(case['up']), 'x_first': float(xs[0]), 'x_last': float(xs[-1]), 'outputs': outputs}
-    return data, absent_info, {'xs': [float(x) for x in xs], 'values': values}
+    return data, absent_info, {'xs': [float(x) for x in xs], 'values': values, 'absent': absent_of(case)}
 
 
 def scale_position(curve, v):
@@ -616,7 +625,7 @@ def check_film_geometry(path, film, case, model, cc, route, absent_info=None):
         allowed = []   # per sample: (list of exact x, list of free intervals)
         for i, v in enumerate(vals):
             exact, free = [], []
-            if v != NULL:
+            if v != model.get('absent', NULL):
                 for c, (tl, tr) in cvs:
                     kind, frac = scale_position(c, v)
                     if kind == 'at' and c['mode'] != b'X10 ':
